@@ -56,22 +56,68 @@ def incoming_catalogue():
             owner = "media"
         out[E.__name__] = (node, owner)
     for name in ("StreamFeatures", "StreamError-conflict", "StreamError-ack", "AccountIb", "ContactsSyncNotification", "AddGroupsNotification",
-                 "CreateGroupsNotification", "RemoveGroupsNotification", "SubjectGroupsNotification"):
+                 "CreateGroupsNotification", "RemoveGroupsNotification", "SubjectGroupsNotification") + ATTRS_ONLY:
         C, node, role, keep = T._sample(name)
         out[name] = (node, IN_OWNER.get(name))
     return out
+
+
+def protocol_layers(st):
+    """every layer instance of the stack that keeps a request registry"""
+    out, todo, i = [], [], 0
+    while True:
+        try:
+            todo.append(st.getLayer(i))
+        except Exception:
+            break
+        i += 1
+    while todo:
+        l = todo.pop(0)
+        todo.extend(getattr(l, "sublayers", ()))
+        if hasattr(l, "iqRegistry") and hasattr(l, "processIqRegistry"):
+            out.append(l)
+    return out
+
+
+def pending_request(ctx, st, bottom):
+    """state: one layer (solver's choice) has a request outstanding, registered through the real _sendIq"""
+    from yowsup.layers.protocol_iq.protocolentities import PingIqProtocolEntity
+    pls = protocol_layers(st)
+    who = ctx.choice("layer_with_pending_request", ["none"] + ["%d:%s" % (i, type(l).__name__) for i, l in enumerate(pls)])
+    calls = []
+    if who == "none":
+        return None, calls, None
+    layer = pls[int(who.split(":")[0])]
+    req = PingIqProtocolEntity()
+    layer._sendIq(req, lambda *a: calls.append("success"), lambda *a: calls.append("error"))
+    del bottom.down[:]
+    return req.getId(), calls, layer
+
+
+ATTRS_ONLY = ("RetryIncomingReceipt", "RetryIncomingReceipt-group")     # delivered upward as plain receipts: the retry body is the encryption layer's business
 
 
 def h_incoming(ctx, name, flags, enc):
     st, bottom, app, mgr = _stack(flags, enc)
     node, owner = incoming_catalogue()[name]
     keep = SC.DISCRIMINATORS + c09.KEEP_EXTRA.get(name, ()) + (("from", "status", "kind") if name == "AccountIb" else ())
+    pid, calls, player = pending_request(ctx, st, bottom)
     sym = SC.symbolise(ctx, node, keep=keep)
+    if pid is not None and node.tag == "iq":
+        sid = hooks.dict_get(sym.attributes, "id")
+        if sid is not None:
+            ctx.assume(sid != pid)           # replies to outstanding requests are C08's subject
     bottom.inject(sym)
     on = owner is None or _flags(flags)[owner]
     if not on:
         return [("module-off:nothing-delivered (got %d)" % len(app.up), len(app.up) == 0)]
     obs = [("exactly-one-entity (got %d)" % len(app.up), len(app.up) == 1)]
+    if pid is not None:
+        obs.append(("an outstanding request is untouched by a stanza that is not its reply (callbacks %s)" % calls, not calls and hooks.sx_in(pid, player.iqRegistry)))
+    if name in ATTRS_ONLY and len(app.up) == 1 and app.up[0] is not None:
+        PTN = SC.N()
+        out = app.up[0].toProtocolTreeNode()
+        return obs + SC.node_obs("entity", PTN(out.tag, out.attributes), PTN(sym.tag, sym.attributes))
     if len(app.up) == 1:
         ent = app.up[0]
         obs.append(("entity-is-not-None", ent is not None))
